@@ -9,17 +9,19 @@ RULE = ("batches of 2..7 expressions (random + rule-directed, narrow per-batch w
         "whose cache exceeds 6000 tree nodes are compared on results only, key batch); a 20 s watchdog per batch detects non-termination. "
         "distinct = distinct batches")
 ASSUMPTIONS = [
-    "termination is OBSERVED under a watchdog, not proved (the full termination statement stays unproved; see Props/C13.v and DESIGN section 9)",
+    "termination is PROVED for the cache-free driver model (polynomial measure mu, strictly decreased by every rule); for the memoising driver the theorems "
+    "cover calls that return (a watchdog observes the real code); run time is not part of the statement (the proved fuel bound is exponential in the widths)",
     "cache transparency is PROVED for the memoising driver model (cache as a finite map; calls that return); the two cache containers are abstracted to that "
     "finite-map interface, their agreement (results and final contents) is compared on generated histories, not proved",
 ]
 MANIFEST = dict(
-    level_text=("Theorems in Coq: C13_simp_idempotent_partial / C13_simp_fuel_independent (results of the cache-free driver model are fixed points and unique), "
+    level_text=("Theorems in Coq: C13_simp_terminates (every well-typed expression: the driver model never runs out of fuel), C13_rules_decrease (measure), "
+                "C13_simp_returns (a well-typed, equivalent fixed point is returned unless a product wider than 128 bits panics in baa), C13_simp_idempotent_partial / C13_simp_fuel_independent (results of the cache-free driver model are fixed points and unique), "
                 "C13_cache_transparent, C13_history_transparent, C13_history_independent, C13_cached_idempotent (the memoising driver model of transform.rs/"
                 "meta.rs - work stack, persistent cache, re-queuing, get_fixed_point with pointer updates - returns, after ANY history with the same instance, "
-                "the cache-free result of the expression alone; invariant cache_inv holds for the empty cache and is preserved by every call). Termination "
-                "is NOT proved (stated as such; watchdog). Tie: results AND final cache contents of real sparse/dense instances against the extracted model."),
-    level_note="Partial: termination unproved (cache theorems are for calls that return); container difference (sparse/dense) tested, not proved.",
+                "the cache-free result of the expression alone; invariant cache_inv holds for the empty cache and is preserved by every call). "
+                "Tie: results AND final cache contents of real sparse/dense instances against the extracted model."),
+    level_note="Termination proved for the cache-free driver model; cache theorems are for calls of the memoising driver that return; container difference (sparse/dense) tested, not proved.",
     category="proof",
 )
 
